@@ -13,7 +13,7 @@ def strip_mut(name):
     n = n.replace("IndexMut<", "Index<").replace("index_mut", "index").replace("IterMut", "Iter")
     n = n.replace("assume_init_mut", "assume_init_ref").replace("slice_assume_init_mut", "slice_assume_init_ref")
     n = n.replace("NonNull::as_mut", "NonNull::as_ref")
-    n = re.sub(r"_mut\b", "", n)
+    n = re.sub(r"_mut(?=_|\b)", "", n)
     n = n.replace("&mut ", "&")
     return n
 
